@@ -322,6 +322,9 @@ fn retention(ctx: &Ctx, rep: &mut Report) {
     let mut counts: Vec<u64> = vec![1, 2, 3, 5, 10, 50, 100, 500, 1000, 2000, 5000];
     if ctx.thorough() {
         counts.extend([20_000, 70_000]);
+        if ctx.config == "oc" {
+            counts.push(140_000); // quadratic in the dependency's recency list: one configuration only
+        }
     }
     // expiry durations: one hour, just above 2^32 ms (~49.7 days), ten years
     let expiries: [u64; 3] = [3_600_000, (1u64 << 32) + 50, 315_360_000_000];
@@ -329,7 +332,7 @@ fn retention(ctx: &Ctx, rep: &mut Report) {
     ctx.family(
         rep,
         "retention-under-load",
-        "expiry {one hour, 2^32+50 ms, ten years}; a transfer on key K is started, 300 ms pass, then 1..2000 requests on other keys (1 ms apart, every one on a distinct key; quick up to 5000, thorough up to 70000), then the follow-up on K: served from the cache / the upload completes with its buffered bytes",
+        "expiry {one hour, 2^32+50 ms, ten years}; a transfer on key K is started, 300 ms pass, then 1..2000 requests on other keys (1 ms apart, every one on a distinct key; quick up to 5000, thorough up to 140000 - beyond 2^16 and 2^17 tracked keys), then the follow-up on K: served from the cache / the upload completes with its buffered bytes",
         n,
         true,
         |i, rep| {
